@@ -79,6 +79,8 @@ def enumerated(tier, seed):
                 if a != b:
                     for append in (False, True):
                         yield dict(steps=[dict(tool=tool, switch=a, switch2=b, append=append)], pre="absent", k=5)
+                        # ... and naming two different new paths: each gets a complete image of its own kind
+                        yield dict(steps=[dict(tool=tool, switch=a, switch2=b, append=append, other_path=True)], pre="absent", k=5)
     # program names that cannot be stored as bytes: the save fails, the existing image must survive
     for name in ("N\u20ac", "\u00c01", "\u540d\u524d"):
         for switch in ("--to_cas", "--to_dsk"):
@@ -279,8 +281,30 @@ def execute(case):
             if step["append"]:
                 argv.append("--append")
             if step.get("switch2"):
-                argv += [step["switch2"], spelled]
+                argv += [step["switch2"], "target2.out" if step.get("other_path") else spelled]
             res = driver.run_cli(script, argv, cwd=tmp, env_extra={"HOME": tmp})
+            if step.get("switch2") and step.get("other_path"):
+                labels.append("two_switches_two_paths")
+                kinds = {"--to_bin": "bin", "--to_cas": "cas", "--to_dsk": "dsk"}
+                if "Traceback" in res.stderr:
+                    return viol("{} {}: traceback".format(script, argv), fid="C10:crash", labels=labels)
+                for sw, name in ((step["switch"], "target.out"), (step["switch2"], "target2.out")):
+                    pth = os.path.join(tmp, name)
+                    got = open(pth, "rb").read() if os.path.exists(pth) else None
+                    if got is None:
+                        return viol("{} {}: {} was not written".format(script, argv[1:], name), fid="C10:two-paths-missing", labels=labels)
+                    if kinds[sw] == "bin":
+                        good = got == bytes(new_data)
+                        what = "{} bytes".format(len(got))
+                    else:
+                        k2, held = classify(got)
+                        good = k2 == kinds[sw] and len(held) == 1
+                        what = "{} image holding {} files".format(k2, len(held))
+                    if not good:
+                        return viol("{} {}: {} should be a complete {} image of the one new file, it is: {}".format(
+                            script, argv[1:], name, kinds[sw], what), fid="C10:two-paths-content", labels=labels)
+                os.remove(os.path.join(tmp, "target2.out"))
+                continue
             if step.get("switch2"):
                 labels.append("two_switches_one_path")
                 after = open(target, "rb").read() if os.path.exists(target) else None
